@@ -359,8 +359,217 @@ func rnSortedAddrs(m map[types.Address]bool) []types.Address {
 	return out
 }
 
+// rnPre: the entries a stake / sentinel Update is about to split an epoch's amount over (storage before the block)
+type rnPre struct {
+	stakes    []*definition.StakeInfo
+	sentinels []*definition.SentinelInfo
+	pillars   []*definition.PillarInfo
+}
+
+func (r *rnRun) preSnapshot(ca types.Address, send *nom.AccountBlock) *rnPre {
+	ab := rnABI(ca)
+	if ab == nil || (ca != types.StakeContract && ca != types.SentinelContract && ca != types.PillarContract) {
+		return nil
+	}
+	if m, e := ab.MethodById(send.Data); e != nil || m.Name != definition.UpdateMethodName {
+		return nil
+	}
+	pre := &rnPre{}
+	storage := r.n.Chain().GetFrontierAccountStore(ca).Storage()
+	if p := safely(func() {
+		if ca == types.PillarContract {
+			pre.pillars, _ = definition.GetPillarsList(storage, false, definition.AnyPillarType)
+		} else if ca == types.StakeContract {
+			definition.IterateStakeEntries(storage, func(si *definition.StakeInfo) error {
+				cp := *si
+				cp.WeightedAmount = new(big.Int).Set(si.WeightedAmount)
+				pre.stakes = append(pre.stakes, &cp)
+				return nil
+			})
+		} else {
+			definition.IterateSentinelEntries(storage, func(si *definition.SentinelInfo) error {
+				cp := *si
+				pre.sentinels = append(pre.sentinels, &cp)
+				return nil
+			})
+		}
+	}); p != "" {
+		return nil
+	}
+	return pre
+}
+
+// amountsLine: the first epoch rewarded by a stake / sentinel Update, with the entries it was computed from, for the Lean
+// reward arithmetic (Model/Rewards.lean on the real chain's inputs): credited per address, in order of first appearance.
+func (r *rnRun) amountsLine(C types.Address, pre *rnPre, e int64, N *rnState) {
+	st, en := r.n.Z.Consensus().FrontierPillarReader().EpochTicker().ToTime(uint64(e))
+	var sb strings.Builder
+	var order []types.Address
+	seen := map[types.Address]bool{}
+	note := func(a types.Address) {
+		if !seen[a] {
+			seen[a] = true
+			order = append(order, a)
+		}
+	}
+	n := 0
+	if C == types.StakeContract {
+		for _, si := range pre.stakes {
+			fmt.Fprintf(&sb, " %s %d %d %s", addrName(si.StakeAddress), si.StartTime, si.RevokeTime, si.WeightedAmount)
+			note(si.StakeAddress)
+			n++
+		}
+	} else {
+		for _, si := range pre.sentinels {
+			fmt.Fprintf(&sb, " %s %d %d", addrName(si.Owner), si.RegistrationTimestamp, si.RevokeTimestamp)
+			note(si.Owner)
+			n++
+		}
+	}
+	var out []string
+	for _, a := range order {
+		v := N.histOf(rnHistKey{a, uint64(e)})
+		if v.isZero() {
+			continue
+		}
+		if C == types.StakeContract {
+			out = append(out, addrName(a)+":"+v.qsr.String())
+		} else {
+			out = append(out, addrName(a)+":"+v.znn.String()+":"+v.qsr.String())
+		}
+	}
+	res := strings.Join(out, " ")
+	if res == "" {
+		res = "-"
+	}
+	r.c.Emit("RN-%s-amounts %d %d %d %d%s | %s", rnCName(C), e, st.Unix(), en.Unix(), n, sb.String(), res)
+	r.c.Hit("amounts-" + rnCName(C) + "-compared-with-model")
+}
+
+// pillarAmountsLine: one epoch rewarded by the pillar contract, with the inputs computeDetailedPillarReward read (epoch
+// statistics and delegations from the node's consensus, percentages and reward addresses from the storage before the
+// block), for the Lean pillar formula; result = credited per address in order of first appearance.
+func (r *rnRun) pillarAmountsLine(pre *rnPre, e int64, ack *nom.Momentum, N *rnState) {
+	if p := safely(func() {
+		reader := r.n.Z.Consensus().FixedPillarReader(ack.Identifier())
+		stats, err := reader.EpochStats(uint64(e))
+		if err != nil || stats == nil {
+			return
+		}
+		details, err := reader.GetPillarDelegationsByEpoch(uint64(e))
+		if err != nil {
+			return
+		}
+		registered := map[string]bool{}
+		for _, pi := range pre.pillars {
+			registered[pi.Name] = true
+		}
+		for nm := range stats.Pillars {
+			if !registered[nm] {
+				r.c.Hit("pillar-amounts-skipped")
+				return
+			}
+		}
+		var sb strings.Builder
+		var order []types.Address
+		seen := map[types.Address]bool{}
+		note := func(a types.Address) {
+			if !seen[a] {
+				seen[a] = true
+				order = append(order, a)
+			}
+		}
+		n := 0
+		for _, pi := range pre.pillars {
+			ps, ok := stats.Pillars[pi.Name]
+			if !ok {
+				continue
+			}
+			n++
+			fmt.Fprintf(&sb, " %d %d %s %d %d %s", ps.BlockNum, ps.ExceptedBlockNum, ps.Weight, pi.GiveBlockRewardPercentage, pi.GiveDelegateRewardPercentage, addrName(pi.RewardWithdrawAddress))
+			note(pi.RewardWithdrawAddress)
+			d, ok := details[pi.Name]
+			if !ok {
+				sb.WriteString(" x")
+				continue
+			}
+			bs := map[types.Address]bool{}
+			for a := range d.Backers {
+				bs[a] = true
+			}
+			bl := rnSortedAddrs(bs)
+			fmt.Fprintf(&sb, " %d", len(bl))
+			for _, a := range bl {
+				fmt.Fprintf(&sb, " %s %s", addrName(a), d.Backers[a])
+				note(a)
+			}
+		}
+		var out []string
+		for _, a := range order {
+			v := N.histOf(rnHistKey{a, uint64(e)})
+			if v.znn.Sign() != 0 {
+				out = append(out, addrName(a)+":"+v.znn.String())
+			}
+		}
+		res := strings.Join(out, " ")
+		if res == "" {
+			res = "-"
+		}
+		r.c.Emit("RN-pillar-amounts %d %d %s %d%s | %s", e, constants.MomentumsPerEpoch, stats.TotalWeight, n, sb.String(), res)
+		r.c.Hit("amounts-pillar-compared-with-model")
+	}); p != "" {
+		r.fail("cannot read the inputs of the pillar reward of epoch %d: %s", e, p)
+	}
+}
+
+// pillarPremises: the hypotheses of the theorem pillar_epoch_bound, evaluated on the statistics the node's consensus
+// reports for a rewarded epoch
+func (r *rnRun) pillarPremises(e int64, ack *nom.Momentum) {
+	var perr error
+	if p := safely(func() {
+		stats, err := r.n.Z.Consensus().FixedPillarReader(ack.Identifier()).EpochStats(uint64(e))
+		if err != nil || stats == nil {
+			perr = fmt.Errorf("EpochStats(%d): %v", e, err)
+			return
+		}
+		names := make([]string, 0, len(stats.Pillars))
+		for nm := range stats.Pillars {
+			names = append(names, nm)
+		}
+		sort.Strings(names)
+		sumW, sumE, sumP := new(big.Int), uint64(0), uint64(0)
+		for _, nm := range names {
+			ps := stats.Pillars[nm]
+			if ps.BlockNum > ps.ExceptedBlockNum {
+				r.fail("premise: epoch %d statistics say pillar %q produced %d momentums of %d expected", e, nm, ps.BlockNum, ps.ExceptedBlockNum)
+			}
+			if ps.Weight.Sign() < 0 {
+				r.fail("premise: epoch %d statistics give pillar %q the negative weight %s", e, nm, ps.Weight)
+			}
+			sumW.Add(sumW, ps.Weight)
+			sumE += ps.ExceptedBlockNum
+			sumP += ps.BlockNum
+			if ps.BlockNum < ps.ExceptedBlockNum {
+				r.c.Hit("pillar-epoch-with-missed-slots")
+			}
+		}
+		if sumW.Cmp(stats.TotalWeight) > 0 {
+			r.fail("premise: epoch %d statistics: the pillar weights sum to %s, TotalWeight is %s", e, sumW, stats.TotalWeight)
+		}
+		if int64(sumE) > constants.MomentumsPerEpoch {
+			r.fail("premise: epoch %d statistics expect %d momentums, an epoch has %d slots", e, sumE, constants.MomentumsPerEpoch)
+		}
+		r.c.Hit("pillar-premises-checked")
+	}); p != "" {
+		perr = fmt.Errorf("panic: %s", p)
+	}
+	if perr != nil {
+		r.fail("premise: cannot read the epoch statistics: %v", perr)
+	}
+}
+
 // observeBlock is called right after a contract receive block was generated and pooled.
-func (r *rnRun) observeBlock(tx *nom.AccountBlockTransaction, methodErr error, send *nom.AccountBlock, ack *nom.Momentum) {
+func (r *rnRun) observeBlock(tx *nom.AccountBlockTransaction, methodErr error, send *nom.AccountBlock, ack *nom.Momentum, pre *rnPre) {
 	c := r.c
 	blk := tx.Block
 	C := blk.Address
@@ -592,6 +801,19 @@ func (r *rnRun) observeBlock(tx *nom.AccountBlockTransaction, methodErr error, s
 		c.Emit("RN-credit %s %d %s %s | ok", cn, e, addrName(cr.k.addr), cr.d)
 		r.credited++
 	}
+	if isUpdate && methodErr == nil && k > 0 {
+		if pre != nil && C != types.PillarContract {
+			r.amountsLine(C, pre, P.cursor+1, N)
+		}
+		if C == types.PillarContract {
+			for e := P.cursor + 1; e <= N.cursor; e++ {
+				r.pillarPremises(e, ack)
+				if pre != nil {
+					r.pillarAmountsLine(pre, e, ack, N)
+				}
+			}
+		}
+	}
 	// ---- MONITOR emission: totals of the epochs rewarded by this block ------------------------------------------
 	for e := P.cursor + 1; e <= N.cursor; e++ {
 		tot := rnZero()
@@ -805,6 +1027,7 @@ func (r *rnRun) produce(gap int64) bool {
 					perr = fmt.Errorf("sequencer entry without block: %v", err)
 					return
 				}
+				pre := r.preSnapshot(ca, send)
 				res, err := r.n.Sup.GenerateAutoReceive(send)
 				if err != nil || res.Transaction == nil {
 					ins.Unlock()
@@ -817,7 +1040,7 @@ func (r *rnRun) produce(gap int64) bool {
 					perr = fmt.Errorf("inserting the receive block of %s: %v", addrName(ca), err)
 					return
 				}
-				r.observeBlock(res.Transaction, res.ReturnedError, send, frontier)
+				r.observeBlock(res.Transaction, res.ReturnedError, send, frontier, pre)
 				one = true
 			}
 			if !one {
